@@ -123,7 +123,6 @@ type sample struct {
 	Big       bool               // thorough only
 	CrossOnly bool               // not mutated, only fed unmodified under every profile
 	Subst     func(off int) bool // where token substitution applies (nil = everywhere)
-	Del       func(off int) bool // where byte deletion applies (nil = everywhere)
 	Want      string             // self-test: this URL must be extracted from the unmutated sample
 }
 
@@ -234,15 +233,12 @@ func samples() []sample {
 var lexer = regexp.MustCompile(`(?s)[A-Za-z0-9_.\-]+|\s+|.`)
 
 // mutants calls f with every 1-mutation of s. The slice passed to f is reused.
-func mutants(s []byte, dict []string, subst, del func(int) bool, f func(m []byte, desc string)) {
+func mutants(s []byte, dict []string, subst func(int) bool, f func(m []byte, desc string)) {
 	buf := make([]byte, 0, len(s)+64)
 	for i := 0; i < len(s); i++ {
 		f(s[:i], fmt.Sprintf("truncated at %d", i))
 	}
 	for i := 0; i < len(s); i++ {
-		if del != nil && !del(i) {
-			continue
-		}
 		buf = append(append(buf[:0], s[:i]...), s[i+1:]...)
 		f(buf, fmt.Sprintf("byte %d deleted", i))
 	}
@@ -307,7 +303,7 @@ func mutantSpace(name, about string, sel func(s *sample, th bool) (use, two bool
 				continue
 			}
 			one := func(base []byte, pre string, then func(m []byte, d string)) {
-				mutants(base, s.Dict, s.Subst, s.Del, func(m []byte, d string) {
+				mutants(base, s.Dict, s.Subst, func(m []byte, d string) {
 					for _, p := range profs {
 						emit(&Case{Space: name, Desc: s.Name + ": " + pre + d, Profile: p, Status: 200, Body: m})
 					}
